@@ -225,6 +225,8 @@ class AoefSim:
             self.trace.append(("world",))
             for probe in specs.reach_probes(op["spec"]):
                 self.probes.hit(probe)
+            if len(op["spec"].get("recordings", [])) >= 100:
+                self.probes.hit("shape:bulk-world>=100-recordings")
         elif kind == "save":
             self.do_save(op)
         elif kind == "resave":
@@ -407,6 +409,8 @@ class AoefSim:
         self.probes.hit(f"save:path-as-{op.get('path_as', 'str')}")
         if audio is not None:
             self.probes.hit(f"save:audio-as-{op.get('audio_as', 'str')}")
+        if after is not None and outcome == "ack" and len(after) >= 100_000:
+            self.probes.hit("save:document>=100kB")
         if entry_before["status"] != "absent":
             self.probes.hit("save:overwrite")
             if (
@@ -758,6 +762,7 @@ def draw_run_cfg(rng, focus: str, tier: str) -> dict:
     small.update(
         n_users=min(1, small["n_users"]),
         n_tags=min(1, small["n_tags"]),
+        bulk=False,
         n_recordings=1,
         n_clips=1,
         n_sound_events=min(1, small["n_sound_events"]),
@@ -1314,6 +1319,9 @@ CORE_PROBES = {
         "file:rename-by-another-tool",
         "save:path-as-rel",
         "merge:collection-from-two-loaded-ones",
+        "shape:bulk-world>=100-recordings",
+        "save:document>=100kB",
+        "clock-skew-between-nodes",
     ]
     + [f"load:checked:{t}" for t in COLLECTION_TYPE.values()]
     + WRITE_FAULTS
